@@ -711,14 +711,17 @@ func (l *loopState) resolveExpressions(inputData any, dataModel any) (any, error
 	v := reflect.ValueOf(inputData)
 	switch v.Kind() {
 	case reflect.Slice:
-		result := make([]any, v.Len())
+		result := make([]any, 0, v.Len())
 		for i := 0; i < v.Len(); i++ {
 			value := v.Index(i).Interface()
 			newValue, err := l.resolveExpressions(value, dataModel)
 			if err != nil {
 				return nil, fmt.Errorf("failed to resolve workflow slice expressions (%w)", err)
 			}
-			result[i] = newValue
+			if _, isOptional := value.(*infer.OptionalExpression); isOptional && newValue == nil {
+				continue // An absent optional item is left out, like an absent optional field.
+			}
+			result = append(result, newValue)
 		}
 		return result, nil
 	case reflect.Map:
